@@ -128,7 +128,21 @@ pub fn hdr_write(a: &Args) -> Args {
     let Some(st) = status(a) else { return vec![vec![2]] };
     let pre = bytes(&arg(a, 3));
     let hs = pairs(a);
-    with_dest(argn(a, 1), &pre, &WriteHeaders(st, &hs))
+    let res = with_dest(argn(a, 1), &pre, &WriteHeaders(st, &hs));
+    if argn(a, 1) == VEC {
+        // `headers` is any IntoIterator: the same list handed over through iterators that do not know their length
+        // (filter: size_hint lower bound 0; from_fn: (0, None)) must give the same bytes and the same count
+        let mut v1 = pre.clone();
+        let r1 = write_headers(&mut v1, st, hs.iter().filter(|_| true).map(|(n, v)| (&n[..], &v[..])));
+        let mut it = hs.iter();
+        let mut v2 = pre.clone();
+        let r2 = write_headers(&mut v2, st, std::iter::from_fn(|| it.next().map(|(n, v)| (&n[..], &v[..]))));
+        for (r, v) in [(r1, v1), (r2, v2)] {
+            let n = r.expect("a Vec never fails");
+            assert_eq!(vec![vec![1], vec![n as u128], nums(&v)], res, "the result depends on the kind of iterator the headers come from");
+        }
+    }
+    res
 }
 
 pub fn hdr_http(a: &Args) -> Args {
